@@ -72,13 +72,27 @@ def gen(seed, tier):
     if n_runs >= 2 and r.random() < 0.5:
         k = r.randint(1, n_runs - 1)
         redefine = sorted(r.sample(list(runs), k))
+    # who redefines: the context that made the data, or another one on the same storage (the first one has
+    # looked up the superrun's keys before and is used again afterwards)
+    redefine_via = r.choice(["other", "other", "same"])
+    # time ranges (stored superruns only) that start / end exactly on subrun borders: subruns k..m
+    ranges = []
+    for _ in range(r.choice([0, 1, 2])):
+        k = r.randrange(n_runs)
+        ranges.append([k, r.randrange(k, n_runs)])
     return {"spec": spec, "target": prev, "cfg": cfg, "stored": {}, "runs": sorted(runs), "redefine": redefine,
+            "redefine_via": redefine_via, "ranges": ranges,
             "fs_order": r.choice([0, 1]), "est_steps": 800}
 
 
 def shrink(w):
     if w["redefine"]:
         yield dict(w, redefine=None)
+    if w.get("ranges"):
+        yield dict(w, ranges=[])
+        if len(w["ranges"]) > 1:
+            yield dict(w, ranges=w["ranges"][:1])
+            yield dict(w, ranges=w["ranges"][1:])
     nodes = w["spec"]["nodes"]
     if any(n.get("opts", {}).get("target_mb", 200) != 200 for n in nodes):
         yield dict(w, spec=dict(w["spec"], nodes=[dict(n, opts=dict(n["opts"], target_mb=200)) for n in nodes]))
@@ -158,12 +172,23 @@ def execute(w, seed, strategy="random", forced=None, strict=False):
         res["alive"] = [t.name for t in pr.R.sim.live_threads()]
         fresh = mk_ctx()
         res["stored_super"] = fresh.is_stored(SUP, target)
-        res["reload"] = fresh.get_array(SUP, target, processor=w["cfg"]["processor"], progress_bar=False, multi_run_progress_bar=False)
+        res["reload_chunks"] = pr.get_chunks(fresh, target)
+        res["range_reads"] = []
+        if res["stored_super"]:
+            src = spec["nodes"][0]["runs"]
+            for k, m in w.get("ranges", []):
+                t0, t1 = src[rids[k]]["bounds"][0], src[rids[m]]["bounds"][-1]
+                res["range_reads"].append((k, m, pr.get_chunks(fresh, target, time_range=(t0, t1))))
         if w["redefine"]:
-            ctx2 = mk_ctx()
-            ctx2.define_run(SUP, list(w["redefine"]))
-            res["stored_after_redefine"] = ctx2.is_stored(SUP, target)
-            res["redefined_rows"] = ctx2.get_array(SUP, target, processor=w["cfg"]["processor"], progress_bar=False, multi_run_progress_bar=False)
+            other = mk_ctx()
+            definer = ctx if w.get("redefine_via", "other") == "same" else other
+            definer.define_run(SUP, list(w["redefine"]))
+            users = {"the context that made the data": ctx, "a context that read the data": fresh,
+                     "a new context": other}
+            res["stored_after_redefine"] = {name: c.is_stored(SUP, target) for name, c in users.items()}
+            res["redefined_rows"] = {name: c.get_array(SUP, target, processor=w["cfg"]["processor"],
+                                                       progress_bar=False, multi_run_progress_bar=False)
+                                     for name, c in users.items()}
         return True
 
     with pr.R:
@@ -171,7 +196,7 @@ def execute(w, seed, strategy="random", forced=None, strict=False):
     vio, inconclusive = common_verdict(pr, out)
     if vio is None and not inconclusive:
         if out[0] == "exc":
-            stage = "redefine" if "reload" in res else ("reload" if "chunks" in res else "get_iter")
+            stage = "redefine" if "reload_chunks" in res else ("reload" if "chunks" in res else "get_iter")
             vio = Violation("EXC", f"{stage}: {sig_of_exception(out[1])}", repr(out[1])[:800])
         else:
             exp = concat_oracle(spec, rids, target)
@@ -182,22 +207,47 @@ def execute(w, seed, strategy="random", forced=None, strict=False):
                                 P.describe_diff(got, exp))
             if vio is None:
                 vio = check_subruns(chunks, spec, rids)
-            if vio is None and not P.rows_equal(res["reload"], exp):
-                vio = Violation("WRONG_ROWS", "re-read superrun differs from the concatenation of its subruns "
-                                              f"(stored={res['stored_super']})", P.describe_diff(res["reload"], exp))
+            if vio is None:
+                rl = res["reload_chunks"]
+                got = np.concatenate([c[2] for c in rl]) if rl else exp[:0]
+                if not P.rows_equal(got, exp):
+                    vio = Violation("WRONG_ROWS", "re-read superrun differs from the concatenation of its subruns "
+                                                  f"(stored={res['stored_super']})", P.describe_diff(got, exp))
+                else:
+                    vio = check_subruns(rl, spec, rids)
+                    if vio is not None:
+                        vio = Violation(vio.cls, f"re-read (stored={res['stored_super']}): {vio.signature}", vio.detail)
+            for k, m, chunks in res["range_reads"]:
+                if vio is not None:
+                    break
+                part = rids[k:m + 1]
+                want = concat_oracle(spec, part, target)
+                got = np.concatenate([c[2] for c in chunks]) if chunks else want[:0]
+                if not P.rows_equal(got, want):
+                    vio = Violation("WRONG_ROWS", "stored superrun read with a time range from the start of one "
+                                                  "subrun to the end of another differs from those subruns' rows",
+                                    f"subruns {part}: " + P.describe_diff(got, want))
+                else:
+                    vio = check_subruns(chunks, spec, part)
+                    if vio is not None:
+                        vio = Violation(vio.cls, f"time-range read on subrun borders: {vio.signature}",
+                                        f"subruns {part}: {vio.detail}")
             if vio is None and w["cfg"]["write_superruns"] and not res["stored_super"]:
                 vio = Violation("NOT_STORED", "write_superruns is on but the superrun data is not stored", "")
             if vio is None and not w["cfg"]["write_superruns"] and res["stored_super"]:
                 vio = Violation("STORED", "write_superruns is off but superrun data was stored", "")
             if vio is None and w["redefine"]:
-                if res["stored_after_redefine"]:
-                    vio = Violation("STALE", "after redefining the superrun its old stored data is still reported "
-                                             "as available", str(w["redefine"]))
-                else:
-                    exp2 = concat_oracle(spec, w["redefine"], target)
-                    if not P.rows_equal(res["redefined_rows"], exp2):
-                        vio = Violation("STALE", "redefined superrun returns rows of the old definition / wrong rows",
-                                        P.describe_diff(res["redefined_rows"], exp2))
+                exp2 = concat_oracle(spec, w["redefine"], target)
+                via = w.get("redefine_via", "other")
+                for name, st in res["stored_after_redefine"].items():
+                    if st and vio is None:
+                        vio = Violation("STALE", f"after redefining the superrun (through {via} context) its old "
+                                                 f"stored data is still reported as available by {name}",
+                                        str(w["redefine"]))
+                for name, rows in res["redefined_rows"].items():
+                    if vio is None and not P.rows_equal(rows, exp2):
+                        vio = Violation("STALE", f"redefined superrun (through {via} context): {name} returns rows "
+                                                 f"of the old definition / wrong rows", P.describe_diff(rows, exp2))
             if vio is None and res["alive"]:
                 vio = Violation("THREADS_ALIVE", "threads alive after the request", res["alive"])
     r = base_result(pr, w, vio, inconclusive, strategy=strategy,
